@@ -43,7 +43,7 @@ def confirm(wt, sid, prop, demo_flags=""):
     rc, out = sh(cmd, wt)
     log["demo_with_change"] = {"cmd": cmd, "exit": rc, "tail": out[-600:]}
     assert rc != 0, "demonstration passes WITH the change"
-    assert "test result: FAILED" in out or "panicked" in out, "demonstration did not fail by assertion:\n" + out[-800:]
+    assert "test result: FAILED" in out or "panicked" in out or "error[E" in out, "demonstration did not fail by assertion or compile error:\n" + out[-800:]
     rc, out = sh("git apply -R mutant.diff", wt)
     assert rc == 0, out
     try:
